@@ -358,6 +358,20 @@ pub fn trait_binary(which: u8) {
     reached();
 }
 
+/// Float/FloatCore min and max against the inherent functions on the real code, every bit pattern
+pub fn minmax_entry_real(which: u8) {
+    let x = any_tf();
+    let y = any_tf();
+    let (r, want) = match which {
+        0 => (Float::min(x, y), TwoFloat::min(x, y)),
+        1 => (num_traits::float::FloatCore::min(x, y), TwoFloat::min(x, y)),
+        2 => (Float::max(x, y), TwoFloat::max(x, y)),
+        _ => (num_traits::float::FloatCore::max(x, y), TwoFloat::max(x, y)),
+    };
+    assert!(same(r, want));
+    reached();
+}
+
 pub static mut T_POWI: Table<3, 2> = Table::new();
 pub fn uf_powi(x: TwoFloat, n: i32) -> TwoFloat {
     let fresh = fresh2();
